@@ -126,6 +126,8 @@ def concretize(path, pre, leaf, uid):
     lines = (["PRE", ""] if pre == 2 else []) + inner
     # a duplicate reference definition at document level after everything else (its warning must name this line)
     lines += ["", f"[dupref{uid}]: https://e.x/1", f"[dupref{uid}]: https://e.x/2"]
+    # two directives whose bodies are the same text
+    lines += ["", "```{note}", f"TWIN{uid}", "```", "", "```{note}", f"TWIN{uid}", "```"]
     return "\n".join(lines) + "\n", files
 
 
@@ -212,6 +214,10 @@ def observe(case):
     if len(dd) != 1:
         return {"problem": f"{len(dd)} [myst.duplicate_def] warnings", "text": text, "files": files}
     obs.append([dd[0]["line"] if dd[0]["line"] is not None else -1, srcidx(dd[0]["src"])])
+    tw = [p_ for p_ in doc.findall(nodes.paragraph) if p_.astext() == f"TWIN{uid}"]
+    if len(tw) != 2:
+        return {"problem": f"{len(tw)} twin paragraphs", "text": text, "files": files}
+    obs += [[p_.line if p_.line is not None else -1, srcidx(p_.source)] for p_ in tw]
     return {"obs": obs, "text": text, "files": files}
 
 
@@ -228,7 +234,7 @@ def run(ctx):
     ctx.rule = ("R: every layout within the bound (path of frames x preamble x leaf), each with unique markers. V: random layouts of depth 3-5. "
                 "non-trivial = at least one directive, container or include frame")
     ctx.assumptions += ["docutils front end, pre-transform doctree; the true line is known by construction and double-checked by M's S clause"]
-    base = {"DevIncludePlusOne": False, "DevColonNested": False, "DevFirstLine": False, "DevRestoreToTop": False, "DevAttribution": False, "DevQuoteNoLine": False, "DevDupShift": False}
+    base = {"DevIncludePlusOne": False, "DevColonNested": False, "DevFirstLine": False, "DevRestoreToTop": False, "DevAttribution": False, "DevQuoteNoLine": False, "DevDupShift": False, "DevTokenMemo": False}
     runs = [("depth2", all_frames(), 2, [0, 2], LEAVES), ("depth3", small_frames(), 3, [0], LEAVES if not quick else ["para", "heading", "warn"])]
     if not quick:
         runs.append(("depth4", [frame(w) for w in ("quote", "list", "div", "inc")] + [frame("btick", "colon", 1, 1), frame("colon", "none", 0, 0), frame("colon", "yaml", 1, 0)], 4, [0], ["para", "warn"]))
@@ -248,7 +254,7 @@ def run(ctx):
         if rc.coverage.get(act, (0, 0))[0] == 0:
             raise tlc.MachineryFailure(f"Lines: action {act} never taken (vacuous)")
     ctx.add_tlc("Lines_cov", rc)
-    for dev in ("DevIncludePlusOne", "DevColonNested", "DevFirstLine", "DevRestoreToTop", "DevAttribution", "DevQuoteNoLine", "DevDupShift"):
+    for dev in ("DevIncludePlusOne", "DevColonNested", "DevFirstLine", "DevRestoreToTop", "DevAttribution", "DevQuoteNoLine", "DevDupShift", "DevTokenMemo"):
         rd = tlc.run("Lines", tlc.cfg(ctx, f"l_{dev}.cfg", {**base, dev: True, "Frames": "<-FramesV", "MaxDepth": 2, "Pres": {0}, "Leaves": {"para"}},
                                       invariants=["TrueLines"]), wd=ctx.wd, defs=fv)
         tlc.expect_violation(rd, "TrueLines", f"Lines {dev}")
@@ -312,8 +318,32 @@ def run(ctx):
             suspects.append(v["id"])
     _findings(ctx, "V", suspects, traces, keep, base, verdicts)
     ctx.leg("V", traces=len(traces))
+    _sphinx_include_leg(ctx)
     shutil.rmtree(ctx.wd / "docs", ignore_errors=True)
     ctx.exhaustive = True
+
+
+def _sphinx_include_leg(ctx):
+    """Sphinx front end: a warning raised inside an included file names THAT file (the source path is switched while the
+    include is rendered; M: src = the include frame)"""
+    from ..sphinx_runner import run_project
+    files = {"index.md": "# T\n\ntext\n\n```{include} part.txt\n```\n\n> ```{include} sub/deep.txt\n> ```\n\n{nosuchrole}`top`\n",
+             "part.txt": "first\n\n{nosuchrole}`x`\n", "sub/deep.txt": "one\n\ntwo\n\n{nosuchrole}`y`\n"}
+    r = run_project(ctx.wd / "sx_inc", files, {}, resolve=False)
+    ctx.count(("sphinx-include",))
+    ctx.traces_validated += 1
+    case = {"leg": "R-sphinx-include", "files": files}
+    if not r["ok"]:
+        ctx.violation(f"Sphinx build failed: {r['error']}", case)
+        return
+    ws = [(os.path.basename(w["src"] or "").split(".")[0], w["line"]) for w in (r.get("build_warnings") or r["warnings"]) if w["tag"] == "myst.role_unknown"]
+    # true lines 3 / 5 in the included files (reported +1: the open finding C04-include-plus-one), 11 in index.md
+    want = {("part", (3, 4)), ("deep", (5, 6)), ("index", (11,))}
+    got_ok = len(ws) == 3 and all(any(f == wf and ln in wl for wf, wl in want) for f, ln in ws) and len({f for f, _ in ws}) == 3
+    if not got_ok:
+        ctx.violation(f"Sphinx: warnings raised inside included files must name the included file and its line: observed {sorted(ws, key=str)}, "
+                      "expected part.txt:3, sub/deep.txt:5, index.md:11", case)
+    ctx.leg("R-sphinx-include", builds=1)
 
 
 def _validate(ctx, traces, consts, name, label):
@@ -406,7 +436,7 @@ _orig_run = run
 
 
 def run(ctx):       # noqa: F811  (wrap: flush the R mismatches through TLC before finishing)
-    base = {"DevIncludePlusOne": False, "DevColonNested": False, "DevFirstLine": False, "DevRestoreToTop": False, "DevAttribution": False, "DevQuoteNoLine": False, "DevDupShift": False}
+    base = {"DevIncludePlusOne": False, "DevColonNested": False, "DevFirstLine": False, "DevRestoreToTop": False, "DevAttribution": False, "DevQuoteNoLine": False, "DevDupShift": False, "DevTokenMemo": False}
     _orig_run(ctx)
     _flush_r(ctx, base)
 
